@@ -237,7 +237,12 @@ pub fn gen(out: &mut Out, thorough: bool, seed: u64) {
     script.push("e".into());
     add(&mut cases, &client_reqs[0], script, "-");
     // through the server's proxy_handler: prefix stripping (route patterns with and without wildcard)
-    for (pat, target) in [("/api/*", "/api/x?y=1"), ("/api*", "/api"), ("/*", "/api/submit"), ("/api/submit", "/api/submit")] {
+    for (pat, target) in [("/api/*", "/api/x?y=1"), ("/api*", "/api"), ("/*", "/api/submit"), ("/api/submit", "/api/submit"),
+                          // prefixes whose length in characters and in bytes differ, as raw UTF-8 in the request target
+                          ("/\u{65e5}\u{672c}/*", "/\u{65e5}\u{672c}/index.html"), ("/\u{e9}quip\u{e9}/*", "/\u{e9}quip\u{e9}/a"),
+                          ("/caf\u{e9}/*", "/caf\u{e9}/x"), ("/\u{1f600}*", "/\u{1f600}/y?z"), ("/\u{e9}*", "/\u{e9}"),
+                          // the wildcard in the middle / doubled / absent, a target exactly as long as the prefix
+                          ("/a/*/c", "/a/b/c"), ("/a**", "/a/b"), ("/long/prefix/*", "/long/prefix/"), ("*", "/x")] {
         let req = format!("GET {} HTTP/1.1\r\nHost: h\r\n\r\n", target).into_bytes();
         let bytes = resp_bytes(&mut rng, 200, 0, b"ok");
         add(&mut cases, &req, vec![format!("d{}", hex(&bytes)), "e".into()], pat);
